@@ -41,6 +41,7 @@ def valid(typ, payload):
 def gen_case(rng, maxops=15):
     live = {}     # key -> typ
     ver = {}
+    lastok = {}   # key -> (typ, version) of the last valid content
     ops = []
     for _ in range(3 + rng.below(maxops - 2)):
         r = rng.below(10)
@@ -50,9 +51,18 @@ def gen_case(rng, maxops=15):
         ks = "%s/%s" % k
         if r < 4:
             typ = live.get(k) or rng.choice(TYPES)
+            if k in lastok and lastok[k][0] == typ and rng.chance(1, 3):
+                # the earlier valid content comes back byte for byte (a bad update is reverted, or the same manifest is applied
+                # again after a delete): the file has to be there again (seed C11-4)
+                live[k] = typ
+                ops.append("a|%s|%s|%s|ok|%d" % (k[0], k[1], typ, lastok[k][1]))
+                continue
             live[k] = typ
             ver[k] = ver.get(k, -1) + 1
-            ops.append("a|%s|%s|%s|%s|%d" % (k[0], k[1], typ, rng.choice(PAYLOADS[typ]), ver[k]))
+            pl = rng.choice(PAYLOADS[typ])
+            if pl == "ok":
+                lastok[k] = (typ, ver[k])
+            ops.append("a|%s|%s|%s|%s|%d" % (k[0], k[1], typ, pl, ver[k]))
         elif r < 8:
             ops.append("g|%s" % ks)
         else:
@@ -86,9 +96,35 @@ def gen_prefix_case(rng):
     return "sec ops=%s" % ";".join(ops)
 
 
+def gen_revert_case(rng):
+    """A materialised secret loses its file (invalid update, or delete), then the very same content comes back and is looked up
+    again; other secrets are touched in between. The file must be back, with that content."""
+    k = rng.choice(KEYS)
+    typ = rng.choice(["tls", "jwk", "htp", "ca"])
+    bad = {"tls": ["mismatch", "nonpem", "missing"], "jwk": ["missing"], "htp": ["missing"], "ca": ["nonpem", "missing"]}[typ]
+    other = rng.choice([x for x in KEYS if x != k])
+    ops = ["a|%s|%s|%s|ok|0" % (k[0], k[1], typ)]
+    if rng.chance(1, 2):
+        ops.append("a|%s|%s|%s|ok|0" % (other[0], other[1], rng.choice(["tls", "jwk", "htp"])))
+    ops.append("g|%s/%s" % k)
+    for _ in range(1 + rng.below(2)):
+        if rng.chance(1, 2):
+            ops.append("a|%s|%s|%s|%s|1" % (k[0], k[1], typ, rng.choice(bad)))
+        else:
+            ops.append("d|%s/%s" % k)
+        if rng.chance(1, 3):
+            ops.append("g|%s/%s" % k)
+        if rng.chance(1, 3):
+            ops.append("g|%s/%s" % other)
+        ops.append("a|%s|%s|%s|ok|0" % (k[0], k[1], typ))
+        ops.append("g|%s/%s" % k)
+    return "sec ops=%s" % ";".join(ops)
+
+
 def gen(rng, tier):
     n = 300 if tier == "quick" else 3000
     cases = [dict(line=gen_case(rng, 15 if tier == "quick" else 25), tags=["history"]) for _ in range(n)]
+    cases += [dict(line=gen_revert_case(rng), tags=["revert"]) for _ in range(n // 4)]
     cases += [dict(line=gen_prefix_case(rng), tags=["prefix-names"]) for _ in range(n // 3)]
     return cases
 
